@@ -211,4 +211,18 @@ theorem text_float_no_saturation (p : TextParser)
 example : (Generated.Text.numberDispatch.filter (fun x => x.1 ∈ [102, 100, 101])).map (·.2.1) =
     ["mpt_cfloat", "mpt_cdouble", "mpt_cldouble"] := by decide
 
+/-- Values passed through a variadic call (`mpt_process_vararg` / `mpt_value_argv`, regenerated `argvTable`): every
+    case fetches the promoted type of what it stores and reports its size, so an integer of any of the nine integer
+    types arrives unchanged in the typed iterator (and is then converted under the theorems above). -/
+theorem argv_faithful :
+    (∀ r ∈ Generated.argvTable, r.2.2.2 = r.2.1.size ∧
+      r.2.2.1 = (match r.2.1 with | .i8 | .i16 => CTy.i32 | .u8 | .u16 => CTy.u32 | .f32 => CTy.f64 | ty => ty)) ∧
+    (∀ src ∈ Ty.ints, ∀ v, inRange src v → argvPass src (.int v) = .ok (.int v)) := by
+  refine ⟨by decide, ?_⟩
+  intro src hs v hv
+  cases src <;> simp [Ty.ints] at hs <;> simp only [inRange, Ty.lo, Ty.hi] at hv <;>
+    simp [argvPass, argvRow, Generated.argvTable, Generated.typeInt, Ty.code, tgtCTy, CTy.size, CTy.isFloat, wrap] <;> omega
+
+example : argvPass .x (.int 5000000000) = .ok (.int 5000000000) := by decide
+
 end Mpt.C07
